@@ -80,6 +80,9 @@ def rto_cases(draw, tier="quick"):
     return c
 
 
+FAIL = {"n": None}     # countdown to one failure of a user forward callable (armed by C06/history_independence)
+
+
 def build_rto_target(c):
     import cuqi
     n = c["n"]
@@ -127,7 +130,15 @@ def build_rto_target(c):
         elif lk["backing"] == "matrix":
             model = cuqi.model.LinearModel(gen.relayout(Am, c.get("layout", "plain")))
         else:
-            model = cuqi.model.LinearModel((lambda M: (lambda v: M @ v))(Am), (lambda M: (lambda w: M.T @ w))(Am), range_geometry=m, domain_geometry=n)
+            def _fw(v, M=Am):
+                # (a user callable that fails once - a transient error, an interrupt - when the harness arms FAIL)
+                if FAIL["n"] is not None:
+                    FAIL["n"] -= 1
+                    if FAIL["n"] <= 0:
+                        FAIL["n"] = None
+                        raise RuntimeError("user forward failed once")
+                return M @ v
+            model = cuqi.model.LinearModel(_fw, (lambda M: (lambda w: M.T @ w))(Am), range_geometry=m, domain_geometry=n)
         shared = model
         nkw, Se = c15.form_arg(lk["form"], lk["var"], lk["G"])
         if U != 1.0:
@@ -340,6 +351,11 @@ def hist_cases(draw, tier="quick"):
     c["kind"] = kind
     c["steps"] = draw(st.integers(2, 4))
     c["useed"] = draw(st.integers(0, 10 ** 6))
+    c["beta_reassigned"] = draw(st.booleans())
+    c["fail_once"] = draw(st.booleans())
+    if kind == "rto" and c["fail_once"] and c["interface"] == "experimental":
+        for lk in c["liks"]:
+            lk["backing"] = "function"
     return c
 
 
@@ -378,7 +394,7 @@ def run_hist(c, rec):
         x0 = A(c["xk"])
         k = m + c20.ref_D(n, c["bc"], 1).shape[0]
         maxit, tol = 40 * n + 200, 1e-14
-        mk_new = lambda x: cuqi.experimental.mcmc.UGLA(target, initial_point=x.copy(), maxit=maxit, tol=tol, beta=c["beta"])
+        mk_new = lambda x, beta=None: cuqi.experimental.mcmc.UGLA(target, initial_point=x.copy(), maxit=maxit, tol=tol, beta=c["beta"] if beta is None else beta)
         mk_old = lambda x: cuqi.sampler.UGLA(target, x0=x.copy(), maxit=maxit, tol=tol, beta=c["beta"])
     E = np.random.RandomState(c["useed"]).standard_normal((nst, k))
 
@@ -386,13 +402,32 @@ def run_hist(c, rec):
         """states after each of len(es) steps from xstart with the scripted perturbations"""
         flat = [v for e in es for v in e]
         if c["interface"] == "experimental":
-            s = mk_new(xstart)
-            s.initialize()
+            whole = len(es) > 1
+            if kind == "ugla" and whole and c.get("beta_reassigned"):
+                # the smoothing parameter given through the public attribute after the sampler was set up with another value
+                s = mk_new(xstart, beta=30.0 * c["beta"])
+                s.initialize()
+                s.beta = c["beta"]
+            else:
+                s = mk_new(xstart)
+                s.initialize()
             out = []
-            with patched_global(ScriptedRNG(normal=flat)):
-                for _ in es:
+            for j, e in enumerate(es):
+                if kind == "rto" and whole and c.get("fail_once") and j == 1:
+                    # a user callable fails once inside this step; the user catches the error and makes the step again
+                    FAIL["n"] = 2
+                    try:
+                        with patched_global(ScriptedRNG(normal=list(e), fallback_seed=1)):
+                            try:
+                                s.step()
+                            except RuntimeError:
+                                pass
+                    finally:
+                        FAIL["n"] = None
+                    s.current_point = np.array(out[-1], dtype=float)
+                with patched_global(ScriptedRNG(normal=list(e))):
                     s.step()
-                    out.append(np.asarray(s.current_point, dtype=float).copy())
+                out.append(np.asarray(s.current_point, dtype=float).copy())
             return out
         s = mk_old(xstart)
         with patched_global(ScriptedRNG(normal=flat)):
